@@ -149,6 +149,10 @@ def update_model(ctx):
                 main_sets = [t for t in sets if not (t[1] == "e" and t[3] == "mode=reset")]
                 if [t[1] for t in main_sets] != [name_of(k) for k in upto]:
                     problems["C02"].append("%s: keys assigned %s, specification %s" % (desc, [t[1] for t in main_sets], [name_of(k) for k in upto]))
+                    if len([t[1] for t in main_sets]) > len(set(t[1] for t in main_sets)):
+                        problems["C08"].append("%s: keys assigned %s -- a key is assigned a second time (a roll-back): _sync_refs pushes every linked parameter a source event affects through ONE "
+                                               "update; when a later-linked parameter rejects its value, the earlier-linked one is written back to its old value and no longer mirrors its source" % (
+                                                   desc, [t[1] for t in main_sets]))
                     if same_a and "a" not in [t[1] for t in main_sets]:
                         msg = ("%s: the key never reaches the setter -- the assignment is what ends the parameter's link and cancels its pending asynchronous reference: the superseded "
                                "coroutine result lands after the plain value, and the old source keeps driving the parameter" % desc)
